@@ -1058,6 +1058,61 @@ func c14ObjSuffix(c *Ctx) {
 	// a function's result is a type or a vector of it: a decision about how the wrapper represents the result (nil
 	// or a zero literal on the error branch, pointer or value) that looks the element type up in the schema tables
 	// must know which of the two it is
+	// a section marker names the section that follows: after ---functions--- definitions are functions, after
+	// ---types--- they are constructors, whatever section the parser was in before
+	r.Rule("R14.S", "in ParseSchema the flag that files a definition under Methods is true after the ---functions--- marker and false after the ---types--- marker on every path (the markers set the section, they do not toggle it)", 2)
+	if f := c.fn("R14.S", load.ParsePkg, "", "ParseSchema"); f != nil {
+		// the guard that routes a definition: the If whose true edge dominates the append to methods
+		var route *ssa.If
+		for _, b := range f.Blocks {
+			for _, in := range b.Instrs {
+				call, ok := in.(*ssa.Call)
+				if !ok || an.CalleeName(call.Common()) != "builtin:append" || !strings.Contains(call.Type().String(), "tlparser.Method") {
+					continue
+				}
+				for _, i := range an.Ifs(f) {
+					if i.Block().Succs[0].Dominates(b) && !i.Block().Succs[1].Dominates(b) && len(i.Block().Succs[0].Preds) == 1 {
+						if route == nil || route.Block().Dominates(i.Block()) {
+							route = i
+						}
+					}
+				}
+			}
+		}
+		marker := func(lit string) []an.Edge {
+			var out []an.Edge
+			for _, i := range an.Ifs(f) {
+				cd, ok := an.Classify(i)
+				if ok && strings.HasSuffix(cd.Kind, "Cursor).IsNext") && isConstString(cd.Y, lit) {
+					out = append(out, cd.EdgeWhen(true))
+				}
+			}
+			return out
+		}
+		if route == nil {
+			r.Undecide("R14.S", "section:set-by-marker", c.pos(f.Pos()), "the branch that files a definition under Methods was not found")
+		} else {
+			for _, m := range []struct{ lit, want string }{{"---functions---", "true"}, {"---types---", "false"}} {
+				edges := marker(m.lit)
+				if len(edges) == 0 {
+					r.Undecide("R14.S", "section:set-by-marker:"+m.lit, c.pos(f.Pos()), "no test for the marker "+m.lit+" found")
+					continue
+				}
+				bad := ""
+				// ... until the next marker: the paths stop where another marker is recognised
+				cut := map[an.Edge]bool{}
+				for _, e2 := range append(marker("---functions---"), marker("---types---")...) {
+					cut[e2] = true
+				}
+				for _, e := range edges {
+					if v := boolAfterCut(f, e, route.Cond, route.Block(), cut); v != m.want && v != "" {
+						bad = "after the marker " + m.lit + " the flag may be " + v + " (it depends on the section the parser was in before)"
+					}
+				}
+				r.Check(bad == "", "R14.S", "section:set-by-marker:"+m.lit, c.pos(route.Pos()), bad)
+			}
+		}
+	}
 	r.Rule("R14.V", "in generateMethodFunction every lookup of the result's element type in the schema tables (Enums, Types, SingleInterfaceTypes) lies behind a test of Response.IsList: what is right for an enum is not right for a vector of enums", 1)
 	if f := c.fn("R14.V", load.GenPkg, "*Generator", "generateMethodFunction"); f != nil {
 		isListTest := func(i *ssa.If) bool {
@@ -1755,6 +1810,11 @@ func boolAlongV(v ssa.Value, exec map[an.Edge]bool, visiting map[*ssa.Phi]bool) 
 // held before the edge was taken) until an edge taken after start gives it a value; values meeting at a block are
 // joined.  Branches are not pruned.  Returns "" when `at` is not reachable from the edge.
 func boolAfter(fn *ssa.Function, start an.Edge, v ssa.Value, at *ssa.BasicBlock) string {
+	return boolAfterCut(fn, start, v, at, nil)
+}
+
+// boolAfterCut is boolAfter with a set of edges the paths may not take.
+func boolAfterCut(fn *ssa.Function, start an.Edge, v ssa.Value, at *ssa.BasicBlock, cut map[an.Edge]bool) string {
 	type state map[*ssa.Phi]string
 	eval := func(x ssa.Value, st state) string {
 		neg := false
@@ -1854,6 +1914,9 @@ func boolAfter(fn *ssa.Function, start an.Edge, v ssa.Value, at *ssa.BasicBlock)
 		work = work[1:]
 		for si := range b.Succs {
 			e := an.Edge{From: b, Succ: si}
+			if cut[e] {
+				continue
+			}
 			nst := transfer(e, in[b])
 			if cur, ok := in[e.To()]; !ok {
 				in[e.To()] = nst
